@@ -90,12 +90,36 @@ def configs(cloud, job_private):
 CONFIGS = {(cloud, jp): configs(cloud, jp) for cloud in ('gcp', 'azure') for jp in (True, False)}
 
 
-def make(cloud, job_private, ci, preemptible):
+def _create(cloud, job_private, ci, preemptible):
     mt, wt, ssd, disk, loc = CONFIGS[(cloud, job_private)][ci]
     cls = GCPSlimInstanceConfig if cloud == 'gcp' else AzureSlimInstanceConfig
-    cfg = cls.create(product_versions=PV, machine_type=mt, preemptible=preemptible, local_ssd_data_disk=ssd,
-                     data_disk_size_gb=disk, boot_disk_size_gb=10, job_private=job_private, location=loc)
-    return cfg, wt
+    return cls.create(product_versions=PV, machine_type=mt, preemptible=preemptible, local_ssd_data_disk=ssd,
+                      data_disk_size_gb=disk, boot_disk_size_gb=10, job_private=job_private, location=loc)
+
+
+def _reload(cfg):
+    """The stored form: to_dict -> json text -> json -> the real dispatcher."""
+    return instance_config_from_config_dict(json.loads(json.dumps(cfg.to_dict())))
+
+
+# Every configuration is created and (for the round trip) serialised + reloaded ONCE, concretely, at import time by the
+# real code: these steps have no symbolic input (the configuration is selected by a symbolic index afterwards), and
+# running json under CrossHair's tracer for every path is what made the conditions slow.
+BUILT = {}
+for _key, _lst in CONFIGS.items():
+    for _ci in range(len(_lst)):
+        for _pre in (False, True):
+            _cfg = _create(_key[0], _key[1], _ci, _pre)
+            try:
+                _cfg2 = _reload(_cfg)
+            except Exception as _e:     # a reload that raises is a round-trip failure of that configuration, not a harness crash
+                _cfg2 = _e
+            BUILT[(_key[0], _key[1], _ci, _pre)] = (_cfg, _cfg2)
+
+
+def make(cloud, job_private, ci, preemptible):
+    pre = True if preemptible else False
+    return BUILT[(cloud, job_private, ci + 0, pre)][0], CONFIGS[(cloud, job_private)][ci][1]
 
 
 def by_name(qrs):
@@ -199,8 +223,9 @@ def roundtrip_ok(cloud, job_private, ci, preemptible, c, k, e):
     """An instance config stored (to_dict -> json) and reloaded (json -> instance_config_from_config_dict) bills the
     same resources in the same quantities for every request, and re-serialises to the same dict."""
     cfg, _ = make(cloud, job_private, ci, preemptible)
-    stored = json.dumps(cfg.to_dict())
-    cfg2 = instance_config_from_config_dict(json.loads(stored))
+    cfg2 = BUILT[(cloud, job_private, ci + 0, True if preemptible else False)][1]
+    if isinstance(cfg2, Exception):
+        raise cfg2
     if type(cfg2) is not type(cfg) or cfg2.cores != cfg.cores or cfg2.job_private != cfg.job_private:
         return False
     if cfg2.to_dict() != cfg.to_dict() or cfg2.instance_memory() != cfg.instance_memory():
